@@ -3,6 +3,28 @@ CHECKS["C18"] = dict(
              "internal/cli/zz_verif_c18_test.go": "harness/pkg/cli/c18_test.go"},
     units=[unit("c18", "./twins", "^TestC18", shards=(16, 16), timeout=(600, 3000)),
            unit("c18cli", "./internal/cli", "^TestC18CLI", shards=(4, 8), timeout=(600, 3000))],
-    rule="draft",
-    assumptions=[],
+    rule=("generator: EVERY setting of the box nodes 1..5 x twins 0..min(2,nodes) x partitions 1..3 x views 1..4 (168 settings), each "
+          "unshuffled and shuffled with 3 (quick) / 6 (thorough) fixed seeds, plus rapid-drawn settings with random int64 seeds. A "
+          "generator announcing <= 300k (quick) / 2M (thorough) scenarios is drained completely, a larger one for its first 50k / 200k. "
+          "Checked per case: yielded count == Remaining() announced at construction, Remaining() decreases by one per scenario and "
+          "reaches 0, no two scenarios equal (leader + ordered list of member-sorted partitions per view), a second generator with the "
+          "same settings/seed yields the same sequence, a shuffled generator yields a permutation of the unshuffled set (complete drains) "
+          "or only views of the unshuffled generator (prefix drains), the drained set is V^views for one view set V, every view is a "
+          "partition of exactly the configured nodes (both twins included) with a leader in 1..nodes, json.Marshal/Unmarshal keeps "
+          "leaders and membership (every scenario up to 20k per case in quick / 300k in thorough, a stride plus every scenario holding a "
+          "new view beyond), generators of <= 2500 scenarios also survive the ToJSON/FromJSON file format, and three further calls after "
+          "exhaustion return io.EOF without panic. non-trivial = settings with >= 1 twin pair and >= 2 partitions; the scenarios of "
+          "unshuffled complete drains of such settings are counted as distinct by construction (verified pairwise different). "
+          "verdict: checkCommits on synthetic Networks against a pairwise reference: exhaustive over 1..3 replicas x logs of length <= 3 "
+          "(4 replicas: <= 2 quick, <= 3 thorough) over two blocks per position x every twin mask, plus rapid-drawn fork-shaped logs of "
+          "<= 4 replicas and length <= 10; non-trivial = logs diverging after a common prefix. executor: ExecuteScenario on real "
+          "scenarios (4 replicas, 0..1 twins, 3 rule sets), reported Safe/Commits == reference over the reported NodeCommits. "
+          "command line (unit c18cli): twinsGenerate / twinsRun --log-all write/execute exactly the announced scenarios, once each, "
+          "in one file or a directory of files readable by FromJSON. distinct = hash of the case."),
+    assumptions=["scenario equality is equality of leaders and of the ordered partition lists (the JSON form); views that differ only in "
+                 "the order of their partitions are counted as different (measured: class has-views-equal-up-to-partition-order)",
+                 "ExecuteScenario is only observed reporting 'safe' on real runs (no unsafe run is available: the skipped TestFHSBug "
+                 "scenario commits nothing); the unsafe branch of the verdict is exercised on synthetic Networks only",
+                 "settings announcing more than 300k (quick) / 2M (thorough) scenarios are checked on a prefix of their sequence",
+                 "the file source's behaviour when read past its end and `twins run --concurrency > 1` are outside the property"],
 )
